@@ -163,6 +163,19 @@ theorem diff_add (b : Inst) (δ : Int) (hb : Normal b) (rb : InRange b)
   obtain ⟨n, r, e⟩ := add_spec b δ hb rb hlo hhi
   rw [diff_spec_ms _ _ n hb r rb, e]; omega
 
+/-- kinds mixed: from a millisecond `b`, the difference to an instant `a` of ANY kind leads to the point in time
+at which `a` begins (the second's first millisecond, the day's midnight) -/
+theorem add_diff_start (a b : Inst) (ha : NormalAny a) (hb : Normal b) (ra : InRange a) (rb : InRange b) :
+    Normal (add b (diff a b)) ∧ InRange (add b (diff a b)) ∧ absMs (add b (diff a b)) = startMs a := by
+  have hd := diff_spec a b ha (Or.inl hb) ra rb
+  rw [startMs_ms b hb] at hd
+  obtain ⟨ea, la, ua⟩ := startMs_eq a ha
+  have va : ValidDate a := by rcases ha with h | h | h; exact h.1; exact h.1; exact h.1.1
+  have l := days_ge_1901 a.y a.m a.d ra.1 va.1 va.2.1 va.2.2.1
+  have u := days_lt_2100 a.y a.m a.d ra.2 va.1 va.2.1 va.2.2.2
+  obtain ⟨n, r, e⟩ := add_spec b (diff a b) hb rb (by rw [hd, absMs_1901]; omega) (by rw [hd, absMs_2100]; omega)
+  exact ⟨n, r, by rw [e, hd]; omega⟩
+
 /-- the same for second resolution -/
 theorem add_diff_sec (a b : Inst) (ha : NormalSec a) (hb : NormalSec b) (ra : InRange a) (rb : InRange b) :
     add b (diff a b) = a := by
@@ -571,6 +584,17 @@ example : Normal ⟨1901,1,1,0,0,0,0⟩ ∧ Normal ⟨2099,12,31,23,59,59,999⟩
 example : ¬ Normal ⟨1900,2,29,0,0,0,0⟩ ∧ ¬ Normal ⟨2021,2,29,0,0,0,0⟩ := by decide
 example : NormalSec ⟨2000,2,29,12,0,0,1023⟩ ∧ NormalDay ⟨2020,12,31,255,0,0,0⟩ := by decide
 example : diff ⟨2021,1,1,0,0,0,0⟩ ⟨2020,2,29,23,59,59,999⟩ = 26438400001 := by decide
+-- kinds mixed (D194: the markers 1023 = all-second and 255 = all-day were subtracted as numbers)
+example : diff ⟨2000,3,1,12,0,0,1023⟩ ⟨2000,3,1,12,0,0,0⟩ = 0 := by decide                -- was 1023
+example : diff ⟨2000,3,1,12,0,0,0⟩ ⟨2000,3,1,12,0,0,1023⟩ = 0 := by decide
+example : diff ⟨2000,3,1,13,0,0,1023⟩ ⟨2000,3,1,12,0,0,500⟩ = 3599500 := by decide
+example : diff ⟨2000,3,3,255,0,0,0⟩ ⟨2000,3,1,12,0,0,1023⟩ = 129600000 := by decide
+example : diff ⟨2000,3,1,12,0,0,1023⟩ ⟨2000,3,3,255,0,0,0⟩ = -129600000 := by decide
+example : diff ⟨2000,3,3,255,0,0,0⟩ ⟨2000,3,3,0,0,0,0⟩ = 0 := by decide                   -- a day and its midnight
+example : diff ⟨2000,3,3,255,0,0,1023⟩ ⟨2000,3,3,255,0,0,0⟩ = 0 := by decide               -- `ms` of a day is not looked at
+example : NormalAny ⟨2000,3,3,255,0,0,0⟩ ∧ NormalAny ⟨2000,3,1,12,0,0,1023⟩ ∧ NormalAny ⟨2000,3,1,12,0,0,500⟩ := by decide
+example : startMs ⟨2000,3,3,255,0,0,0⟩ - startMs ⟨2000,3,1,12,0,0,1023⟩ = 129600000 := by decide
+example : add ⟨2000,3,1,12,0,0,500⟩ (diff ⟨2000,3,3,255,0,0,0⟩ ⟨2000,3,1,12,0,0,500⟩) = ⟨2000,3,3,0,0,0,0⟩ := by decide
 example : add ⟨2021,1,1,0,0,0,0⟩ (-1) = ⟨2020,12,31,23,59,59,999⟩ := by decide
 example : add ⟨2020,2,28,10,30,0,0⟩ 86400000 = ⟨2020,2,29,10,30,0,0⟩ := by decide
 example : add ⟨2020,2,28,255,0,0,0⟩ (2 * 86400000) = ⟨2020,3,1,255,0,0,0⟩ := by decide
